@@ -143,7 +143,16 @@ class Conn:
         self.ctx = context.Context(self.client, tctx.options)
         if mode == "transparent":
             self.ctx.server.address = ("origin.example", 80)
-        self.w = World(TOP[mode](self.ctx), self.ctx, on_hook=lambda w, h: tctx.master.addons.trigger(h))
+        self.used = []               # (id of flow.server_conn, parameters) at every `response` hook, in order
+        self.nused = 0
+
+        def on_hook(w, h):
+            tctx.master.addons.trigger(h)
+            if h.name == "response":
+                sc = h.flow.server_conn
+                self.used.append((sc.id, sc.address, bool(sc.tls), sc.sni, sc.via))
+
+        self.w = World(TOP[mode](self.ctx), self.ctx, on_hook=on_hook)
         self.w.start()
         self.cpos = 0
         self.labs = {}               # server label -> stream state
@@ -201,6 +210,20 @@ class Conn:
         cdata = w.sent_to("client"); cnew = cdata[self.cpos:]; self.cpos = len(cdata)
         ws = self.writes[self.nrep:]; self.nrep = len(self.writes)
         return cnew, ws
+
+    def conn_delta(self):
+        """the upstream connection(s) that carried the flows completed since the last step, with the order of first use"""
+        out = []
+        for i in range(self.nused, len(self.used)):
+            cid_, addr, tls, sni, via = self.used[i]
+            ids = []
+            for u in self.used[:i + 1]:
+                if u[0] not in ids: ids.append(u[0])
+            fresh = all(u[0] != cid_ for u in self.used[:i])
+            out.append({"addr": list(addr) if addr else None, "tls": tls, "sni": sni,
+                        "via": [via[0], list(via[1])] if via else None, "idx": ids.index(cid_), "fresh": fresh})
+        self.nused = len(self.used)
+        return out
 
 
 class Check(PropertyCheck):
@@ -293,7 +316,7 @@ class Check(PropertyCheck):
             conns = [rng.weighted([(5, "upstream"), (2, "regular"), (2, "reverse"), (1, "transparent"), (1, "socks5")]) for _ in range(nconn)]
             pending = []
             for cid in range(nconn):
-                q = [{"c": cid, "k": rng.weighted([(5, "http"), (2, "http2"), (3, "c80"), (2, "c443"), (3, "https")])} for _ in range(rng.randint(1, maxper))]
+                q = [{"c": cid, "k": rng.weighted([(5, "http"), (2, "http2"), (3, "c80"), (2, "c443"), (3, "https"), (2, "https2")])} for _ in range(rng.randint(1, maxper))]
                 pending.append(q)
             steps = []
             while any(pending):
@@ -320,9 +343,10 @@ class Check(PropertyCheck):
         if k in ("c80", "c443"):
             t = b"t%d.example:%d" % (idx, 80 if k == "c80" else 443)
             return b"CONNECT " + t + b" HTTP/1.1\r\nHost: " + t + b"\r\n\r\n"
-        host = b"other.example" if k == "http2" else (b"s%d.example" % idx if k == "https" else b"origin.example")
+        host = b"other.example" if k == "http2" else (b"s%d.example" % idx if k == "https" else
+                                                      b"s999.example" if k == "https2" else b"origin.example")
         if is_proxy_mode(mode) and not cn.tunnel:
-            scheme = b"https" if k == "https" else b"http"
+            scheme = b"https" if k in ("https", "https2") else b"http"
             return b"GET " + scheme + b"://" + host + b"/r%d HTTP/1.1\r\nHost: " % idx + host + b"\r\n\r\n"
         return b"GET /r%d HTTP/1.1\r\nHost: " % idx + host + b"\r\n\r\n"
 
@@ -333,7 +357,7 @@ class Check(PropertyCheck):
         if case.get("pauth"):
             pa = proxyauth.ProxyAuth(); addons.insert(0, pa)
         TOKEN = self.token_of(case)
-        need_tls = any(st["k"] == "https" and is_proxy_mode(case["conns"][st["c"]]["mode"]) for st in case["steps"])
+        need_tls = any(st["k"] in ("https", "https2") and is_proxy_mode(case["conns"][st["c"]]["mode"]) for st in case["steps"])
         if need_tls: addons.append(tlsconfig.TlsConfig())
         addons.append(ua)
         with taddons.context(*addons) as tctx:
@@ -361,7 +385,7 @@ class Check(PropertyCheck):
                     stray = TOKEN in head and not creds
                     ws.append({"dest": dest, "form": form, "tls": tls, "creds": creds, "other_auth": other, "stray": stray})
                 if st["k"] in ("c80", "c443") and sts == [200]: cn.tunnel = True
-                outs.append({"client": sts, "writes": ws, "closed": cn.client not in cn.w.transports})
+                outs.append({"client": sts, "writes": ws, "closed": cn.client not in cn.w.transports, "conns": cn.conn_delta()})
             return {"steps": outs, "errors": [e[0] + ": " + e[1][:200] for cn in conns for e in cn.w.errors],
                     "tunneled": sorted(cn.cid for cn in conns if cn.client in getattr(ua, "tunneled", ()))}
 
@@ -392,13 +416,44 @@ class Check(PropertyCheck):
         return fails
 
     # ------------------------------------------------------------------ model tie
+    @staticmethod
+    def host_id(name):
+        """abstract host ids of the routing model"""
+        if name == "origin.example": return 1
+        if name == "other.example": return 2
+        if name == "target.example": return 3
+        m = re.fullmatch(r"([st])(\d+)\.example", name)
+        return (100 if m.group(1) == "s" else 200) + int(m.group(2))
+
+    def route_events(self, case):
+        evs = []
+        for idx, st in enumerate(case["steps"]):
+            k = st["k"]
+            if k in ("c80", "c443"): evs.append(f"{st['c']}/connect/{200 + idx}/{80 if k == 'c80' else 443}")
+            else:
+                tls = k in ("https", "https2")
+                host = 2 if k == "http2" else (100 + idx if k == "https" else 1099 if k == "https2" else 1)
+                evs.append(f"{st['c']}/req/{host}/{443 if tls else 80}/{1 if tls else 0}")
+        return " ".join(evs)
+
+    def conn_token(self, c):
+        if c["via"] not in (None, ["http", [PROXY[0], PROXY[1]]]): return "?via:" + repr(c["via"])
+        return "{%d:%d:%d:%s:%d:%d:%d}" % (self.host_id(c["addr"][0]), c["addr"][1], c["tls"],
+                                            self.host_id(c["sni"]) if c["sni"] else "-", 1 if c["via"] else 0, c["idx"], c["fresh"])
+
     def model_lines(self, case):
         if case.get("pauth") == "bad": return None     # ProxyAuth refuses everything: oracle only (nothing may be written)
         evs = " ".join(f"{st['c']}/{st['k']}" for st in case["steps"])
-        return [f"run {1 if case['auth'] else 0} {','.join(c['mode'] for c in case['conns'])} {evs}"]
+        modes_ = ",".join(c["mode"] for c in case["conns"])
+        if any(st["k"] == "https2" for st in case["steps"]):
+            # repeated https requests to one origin reuse the TLS connection: only the routing model knows about reuse
+            return [f"route {1 if case['auth'] else 0} {modes_} {self.route_events(case)}"]
+        return [f"run {1 if case['auth'] else 0} {modes_} {evs}",
+                f"route {1 if case['auth'] else 0} {modes_} {self.route_events(case)}"]
 
     def model_obs(self, case, replies):
-        return replies[0]
+        if len(replies) == 1: return {"run": "-", "route": replies[0]}
+        return {"run": replies[0], "route": replies[1]}
 
     HDR = {"proxy-authorization": "pa", "authorization": "a"}
 
@@ -418,8 +473,16 @@ class Check(PropertyCheck):
         return f"?{st['k']}:{sts}:{o['closed']}" + body
 
     def impl_view(self, case, obs):
-        return " ".join(self.step_token(case, st, o) for st, o in zip(case["steps"], obs["steps"])) + \
-            " | " + (",".join(map(str, obs["tunneled"])) or "-")
+        toks = [self.step_token(case, st, o) for st, o in zip(case["steps"], obs["steps"])]
+        # the routing model additionally predicts the connection that carried the request: address, tls, sni, via, reuse
+        rtoks = []
+        for t, o in zip(toks, obs["steps"]):
+            cs = o["conns"]
+            if len(cs) > 1: rtoks.append("?conns:" + repr(cs)); continue
+            rtoks.append(t[0] + (self.conn_token(cs[0]) if cs else "") + t[1:])
+        run = "-" if any(st["k"] == "https2" for st in case["steps"]) else \
+            " ".join(toks) + " | " + (",".join(map(str, obs["tunneled"])) or "-")
+        return {"run": run, "route": " ".join(rtoks)}
 
     def classify(self, case, obs):
         if not any(o["writes"] for o in obs["steps"]): return None
